@@ -78,6 +78,8 @@ def job_lattice(tier, rng):
                  and j["params"]["scf_converger"] in ([1], [2])]
         must += [j for j in jobs if j["mols"] in (["ch4", "co"], ["co", "ch4"], ["n2", "ch4", "co"]) and j["params"]["scf_eps"] == 1e-7 and j["start"] == "guess" and j["cap"] is None
                  and j["params"]["scf_converger"] in ([1], [0, 0.3]) and j["params"]["sp2"] in ([False, 1e-5], [True, 1e-5])]
+        # open shell, every solver that supports it, tightest threshold: density criteria must be live
+        must += [j for j in jobs if j["mols"] in (["ch3"], ["ch2t"]) and j["params"]["scf_eps"] == 1e-10 and j["start"] in ("guess", "perturbed") and j["cap"] is None and j["params"]["scf_converger"] in ([1], [0, 0.3])]
         rest = [j for j in jobs if j not in must]
         jobs = must + rng.sample(rest, 60)
     for n, j in enumerate(jobs):
